@@ -757,7 +757,7 @@ fn client(o: &Opts, out: &mut Out, run: &mut u64) {
         }
     }
     // receipt limit: LOG in a tight loop with plenty of gas
-    let loops: Vec<u32> = if thorough { vec![10, 65_530, 65_533, 65_534, 65_535, 65_540] } else { vec![10, 65_534] };
+    let loops: Vec<u32> = if thorough { vec![10, 65_530, 65_533, 65_534, 65_535, 65_540] } else { vec![10, 65_532, 65_533] };   // last run that still ends with Return, first one that cannot
     for cnt in loops {
         let mut tb = TestBuilder::new(o.seed.wrapping_add(cnt as u64));
         let r = |k: u8| RegId::new(0x10 + k);
